@@ -585,10 +585,10 @@ impl<'a> Driver<'a> {
             let idx = psk_idxs[self.rng.usize_below(psk_idxs.len())];
             if s == 0 && self.w.cfg.stratum.contains("psk-replace-one-side") {
                 let n = if self.w.cfg.stratum.contains("psk-replace-one-side-a") { a } else { b };
-                step!(self, Op::SetPsk { node: n as u8, idx, kind: PskKind::Wrong });
+                step!(self, Op::SetPsk { node: n as u8, idx: idx as u64, kind: PskKind::Wrong });
             } else if p.query > 0 && !self.w.cfg.mismatch && self.rng.chance(1, 12) {
-                step!(self, Op::SetPsk { node: a as u8, idx, kind: PskKind::Wrong });
-                step!(self, Op::SetPsk { node: b as u8, idx, kind: PskKind::Wrong });
+                step!(self, Op::SetPsk { node: a as u8, idx: idx as u64, kind: PskKind::Wrong });
+                step!(self, Op::SetPsk { node: b as u8, idx: idx as u64, kind: PskKind::Wrong });
             }
         }
         let mut guard = 0;
@@ -651,26 +651,31 @@ impl<'a> Driver<'a> {
                 for idx in missing {
                     // half of the time let the call that needs it fail first
                     if self.rng.chance(1, 2) {
-                        step!(self, Op::SetPsk { node: n as u8, idx, kind: PskKind::Configured });
+                        step!(self, Op::SetPsk { node: n as u8, idx: idx as u64, kind: PskKind::Configured });
                     } else if self.rng.chance(1, 3) {
                         // a refused set_psk (wrong length) must leave the slot empty
-                        let l = *self.rng.pick(&[0u8, 1, 31, 33, 64]);
-                        step!(self, Op::SetPsk { node: n as u8, idx, kind: PskKind::BadLen(l) });
+                        let l = *self.rng.pick(&[0u32, 1, 31, 33, 64]);
+                        step!(self, Op::SetPsk { node: n as u8, idx: idx as u64, kind: PskKind::BadLen(l) });
                     }
                 }
             }
             if can_fault && p.bad_setpsk > 0 && self.rng.chance(p.bad_setpsk as u64, 1000) {
                 let n = if self.rng.chance(1, 2) { wr } else { rd };
                 let kind = if self.rng.chance(1, 2) {
-                    PskKind::BadLen(*self.rng.pick(&[0u8, 1, 31, 33, 64, 200]))
+                    PskKind::BadLen(*self.rng.pick(&[0u32, 1, 31, 33, 64, 200, 256, 4096, 65_536]))
                 } else {
                     PskKind::Configured
                 };
-                let idx = if kind == PskKind::Configured {
-                    // out-of-range slot, or (valid call) a slot the pattern does not use
-                    if self.rng.chance(1, 3) { self.rng.range(5, 9) as u8 } else { self.rng.range(10, 30) as u8 }
+                let idx: u64 = if kind == PskKind::Configured {
+                    // out-of-range slot (incl. values that do not fit a byte), or (valid call) a
+                    // slot the pattern does not use
+                    match self.rng.below(4) {
+                        0 => self.rng.range(5, 9),
+                        1 => self.rng.range(10, 30),
+                        _ => *self.rng.pick(&[31u64, 32, 64, 255, 256, 257, 265, 65_536, 1 << 32, u64::MAX - 1, u64::MAX]),
+                    }
                 } else {
-                    self.rng.below(12) as u8
+                    self.rng.below(12)
                 };
                 step!(self, Op::SetPsk { node: n as u8, idx, kind });
                 self.hs_faults += 1;
@@ -921,10 +926,11 @@ impl<'a> Driver<'a> {
                 step!(self, Op::SetRecvNonce { node: rcv as u8, v });
             }
         } else if hit!(p.tr_rekey) {
-            let which = match self.rng.below(6) {
+            let which = match self.rng.below(7) {
                 0 | 1 => RekeyKind::Outgoing,
                 2 | 3 => RekeyKind::Incoming,
                 4 => RekeyKind::ManualI(self.rng.below(8) as u8),
+                6 => RekeyKind::ManualNone,
                 _ => {
                     if self.rng.chance(1, 3) {
                         RekeyKind::ManualBoth(self.rng.below(8) as u8)
